@@ -9,6 +9,7 @@ open Streams
       sequential big-step semantics (`Streams.seqOp`), one answer token per op:
         g        GetStream            → `<id>:t` | `0:f`
         c<id>    Clear(id)            → `T` | `F` | `crash:index` | `crash:negative`
+        n<k>     Clear(-k), k ≥ 1 (negative argument, `Streams.clearNeg`; seq lines only, `smon` answers n/a)
         (thread scripts only) r = Clear(id acquired most recently by this thread and not yet
                  released through r), Available if there is none
         a        Available            → `a=<n>`
@@ -33,6 +34,9 @@ open Streams
                    = #GetStream that returned x + [bit x set after the prefix P]
         Available() at the end = number of zero bits of the bitset
         an id handed out is in 1..NumStreams-1 as long as Clear(0) has not been called
+        the calls in the order of their linearization points (bit set by a GetStream CAS, bit cleared by a Clear
+        CAS, Clear load that saw the bit clear) are a history of the sequential id-set specification and every
+        call returns the answer of its linearization point (C08_linearizable_partial, C08_lp_answers; not after Clear(0))
         'negative streams inuse' panic only after an excluded event (Clear(0) called, or a Clear CAS that
         cleared the bit of an id whose GetStream had not returned yet); index panic only for id >= NumStreams
       scenarios whose scripts respect the client protocol (every Clear names an id in use after P, no id is
@@ -95,6 +99,11 @@ def getN : Nat → Shared → Nat → Nat → Nat → Nat → Shared × String
 def seqTok (sh : Shared) (w : String) : Option (Shared × String) :=
   if w == "s" then some (sh, showState sh.words)
   else if w.startsWith "O" then (parsePreset w).map (fun v => (presetOffset sh v, "O"))
+  else if w.startsWith "n" then
+    -- n<k> = Clear(-k), k ≥ 1 (negative argument; `Streams.clearNeg`)
+    match (w.drop 1).toNat? with
+    | some k => if k = 0 then none else let r := clearNeg sh k; some (r.1, showRet r.2)
+    | none => none
   else if w.startsWith "G" then
     match (w.drop 1).toNat? with
     | some c => some (getN c sh 0 0 0 0)
@@ -131,6 +140,8 @@ structure Conc where
   excl : Bool := false
   /-- a monitor of the protocol-free theorems fired on the model run (never: Proofs/C08) -/
   viol : Bool := false
+  /-- the linearization of the run (`Streams.linOf`), most recent linearization point first -/
+  lin : List (Op × Option Ret) := []
 
 def resolve (mine : List Nat) : SOp → Op × List Nat
   | .op o => (o, mine)
@@ -176,7 +187,8 @@ def concStep (c : Conc) (t : Nat) : Conc × String :=
               | _ => true)
           | _ => false
         let c' : Conc := { st := st', scripts := c.scripts.set t script', mine := c.mine.set t mine'',
-                           evs := evOf c.st a ++ c.evs, c0 := c0', excl := excl', viol := c.viol || bad }
+                           evs := evOf c.st a ++ c.evs, c0 := c0', excl := excl', viol := c.viol || bad,
+                           lin := (linOf c.st a).reverse ++ c.lin }
         match r with
         | some _ => (c', toString t ++ ":" ++ showRet r ++ ":" ++ nextYield script' mine'')
         | none => (c', toString t ++ ":y" ++ toString ((st'.threads.getD t .idle).yieldPoint))
@@ -214,14 +226,14 @@ def seqFrom (cache : Cache) (proto : Nat) (toks : List String) : Cache × Option
   | w :: rest =>
     match prefix? w with
     | some c =>
-      match cache.lookup (proto, c) with
+      match cache.lookup (wordsOfProto proto, c) with
       | some sh =>
         -- the digest of the G token is recomputed only when somebody looks at it (seq lines)
         (cache, (seqRun sh rest []).map (fun r => (r.1, "G" :: r.2)))
       | none =>
         match seqTok (Streams.init (wordsOfProto proto)) w with
         | some (sh, a) =>
-          (((proto, c), sh) :: cache.take 300, (seqRun sh rest []).map (fun r => (r.1, a :: r.2)))
+          (((wordsOfProto proto, c), sh) :: cache.take 300, (seqRun sh rest []).map (fun r => (r.1, a :: r.2)))
         | none => (cache, none)
     | none => (cache, seqRun (Streams.init (wordsOfProto proto)) toks [])
   | [] => (cache, seqRun (Streams.init (wordsOfProto proto)) [] [])
@@ -297,6 +309,10 @@ def monitorsAny (c : Conc) (w0 : List Word) : Bool :=
     && ids.all (fun x => c.evs.count (.released x) + b2n (bitAt ws x) == c.evs.count (.got x) + b2n (bitAt w0 x))
     && ids.foldl clrId ws == ids.foldl clrId w0
     && decide (available c.st.sh = ((cap - popcount ws : Nat) : Int))
+    -- C08_linearizable_partial: the calls in the order of their linearization points are a history of the
+    -- sequential specification, starting from the set of ids in use after the prefix (Clear(0) excluded)
+    && (c.c0 || (specAccepts cap { tbl := (Array.range cap).map (fun id => id != 0 && bitAt w0 id), cnt := popcount w0 - 1 }
+                  c.lin.reverse).isSome)
 
 def parseSeqOps : List String → Option (List HOp)
   | [] => some []
@@ -336,12 +352,15 @@ def step (cache : Cache) (ws : List String) : Cache × String :=
       | (cache', none) => (cache', "bad-op")
     | _, _ => (cache, "bad-op")
   | "smon" :: p :: ops =>
+    if ops.any (fun w => w.startsWith "n") then (cache, "n/a")   -- Clear of a negative id: excluded (KF-C08-3)
+    else
     match p.toNat?, parseSeqOps ops with
     | some proto, some l =>
       if l.contains (.op (.clear 0)) then (cache, "n/a")
       else
-        let n := wordsOfProto proto
-        (cache, if seqMonH (64 * n) (Streams.init n) (specInit (64 * n)).tbl 0 l then "ok" else "violated:model")
+        -- the model of `New(proto)` judged by the specification with the capacity the property prescribes for
+        -- the protocol version (C08_sequential_spec_by_protocol)
+        (cache, if seqMonH (specCap proto) (Streams.init (wordsOfProto proto)) (specInit (specCap proto)).tbl 0 l then "ok" else "violated:model")
     | _, _ => (cache, "bad-op")
   | _ => (cache, "bad-op")
 
